@@ -72,6 +72,11 @@ def _drillhole_int_eoh(ws):
     return dh
 
 
+def _with(entity, attr, value):
+    setattr(entity, attr, value)
+    return entity
+
+
 def _floatdata(ws):
     p = _points(ws)
     return p.add_data({"fd": {"values": real_np.array([1.0, 2.0, 3.0])}})
@@ -212,6 +217,10 @@ CASES = {
     "Points.metadata": (_points, "metadata", v_const(lambda: {"k": {"a": 1, "b": "x"}}), ()),
     "Curve.vertices": (_curve, "vertices", v_reals(lambda e: (3, 3), "v"), ()),
     "Curve.cells": (_curve, "cells", v_cells(2), ()),
+    "Curve.parts": (_curve, "parts", lambda cx, X, e: mk_array(X, [cx.int(f"p{i}", 0, 3) for i in range(3)], (3,), "int32"), ()),
+    "Points.metadata=None": (lambda ws: _with(_points(ws), "metadata", {"k": 1}), "metadata", v_const(None), ()),
+    "ReferencedData.value_map=None": (lambda ws: _refdata(ws).entity_type, "value_map", v_const(None), ()),
+    "DataType.color_map=None": (lambda ws: _with(_datatype(ws), "color_map", _mk_colormap()), "color_map", v_const(None), ()),
     "Surface.cells": (_surface, "cells", v_cells(3), ()),
     "Grid2D.origin": (_grid, "origin", v_real3, G2),
     "Grid2D.rotation": (_grid, "rotation", v_real("r"), G2),
@@ -422,7 +431,10 @@ class SetAttribute(Scenario):
                 # the whole entity: every mapped attribute a fresh reader sees equals the in-memory one
                 amap = getattr(ent, "attribute_map", None) or getattr(ent, "_attribute_map", None)
                 if isinstance(amap, dict):
-                    for name in sorted({v.split(":")[0].strip() for v in amap.values()}):
+                    extra = [a for a in ("vertices", "cells", "parts", "values", "surveys", "collar", "layers", "prisms",
+                                         "octree_cells", "u_cell_delimiters", "v_cell_delimiters", "z_cell_delimiters",
+                                         "metadata", "value_map") if hasattr(type(ent), a)]
+                    for name in sorted({v.split(":")[0].strip() for v in amap.values()} | set(extra)):
                         if name in ("uid", "on_file", "parent", "entity_type", "concatenated_attributes", "property_groups"):
                             continue
                         try:
